@@ -112,18 +112,25 @@ def r133(repo, ctx):
     # role A: the field compared with constraints.maxTempChange
     A = None
     test = None
+    negated = False
+    cmp_ = None
     for s in ast.walk(f):
-        if isinstance(s, ast.If) and isinstance(s.test, ast.Compare) and len(s.test.ops) == 1 and U.chain(s.test.comparators[0]) == ('self', 'constraints', 'maxTempChange'):
-            for n_ in ast.walk(s.test.left):
+        if not isinstance(s, ast.If):
+            continue
+        t_, neg_ = s.test, False
+        while isinstance(t_, ast.UnaryOp) and isinstance(t_.op, ast.Not):
+            t_, neg_ = t_.operand, not neg_
+        if isinstance(t_, ast.Compare) and len(t_.ops) == 1 and U.chain(t_.comparators[0]) == ('self', 'constraints', 'maxTempChange'):
+            for n_ in ast.walk(t_.left):
                 c = U.chain(n_) if isinstance(n_, ast.Attribute) else None
                 if c and c[0] == 'self' and len(c) == 2:
                     A = c[1]
-            test = s
+            test, cmp_, negated = s, t_, neg_
     if A is None:
         ctx.violation('R13.3', EULER, q, f, 'no test of an accumulated temperature change against constraints.maxTempChange: the lookup table is never refreshed',
                       construct='_growthRateBinary: refresh test')
         return
-    ok_t = isinstance(test.test.ops[0], (ast.Gt, ast.GtE)) and isinstance(test.test.left, ast.Call) and U.call_name(test.test.left) in ('np.abs', 'abs', 'np.absolute')
+    ok_t = isinstance(cmp_.ops[0], (ast.Gt, ast.GtE)) and isinstance(cmp_.left, ast.Call) and U.call_name(cmp_.left) in ('np.abs', 'abs', 'np.absolute')
     ctx.check(ok_t, 'R13.3', EULER, q, test, f'refresh test is |self.{A}| > maxTempChange (heating and cooling)', f'refresh test is not on the absolute accumulated change: {U.src(test.test)}')
     # T: local assigned from Y.temperature[0]
     Tn = None
@@ -141,7 +148,15 @@ def r133(repo, ctx):
                 and U.chain(v.right) == ('self', 'pData', 'temperature', '[]')
             ev.append('inc' if good else 'badinc')
         if node.kind == 'stmt' and isinstance(a, ast.Assign) and any(U.chain(t) == ('self', A) for t in a.targets):
-            ev.append('reset' if U.is_const(a.value, 0) else 'badreset')
+            v = a.value
+            if isinstance(v, ast.BinOp) and isinstance(v.op, ast.Add) and any(U.chain(x) == ('self', A) for x in (v.left, v.right)):
+                # self.A = self.A + (T - T_last): the accumulation written as a plain assignment
+                d = v.right if U.chain(v.left) == ('self', A) else v.left
+                good = isinstance(d, ast.BinOp) and isinstance(d.op, ast.Sub) and ((isinstance(d.left, ast.Name) and d.left.id == Tn) or U.chain(d.left) == ('Y', 'temperature', '[]')) \
+                    and U.chain(d.right) == ('self', 'pData', 'temperature', '[]')
+                ev.append('inc' if good else 'badinc')
+            else:
+                ev.append('reset' if U.is_const(a.value, 0) else 'badreset')
         if node.kind == 'stmt':
             for c in U.calls(a):
                 if U.call_name(c) == 'self._createLookupBinary':
@@ -156,6 +171,8 @@ def r133(repo, ctx):
         for e in classify(node):
             if e == 'test':
                 st.add('test-after-inc' if 'inc' in st else 'test-before-inc')
+                if label in (True, False):
+                    st.add('exceeds' if (label is True) != negated else 'within')
             else:
                 st.add(e)
         return frozenset(st)
@@ -172,6 +189,10 @@ def r133(repo, ctx):
             problems.add('rebuild without reset' if 'build' in s else 'the accumulator is reset on a path that does not rebuild the table (a slow ramp never refreshes it)')
         if 'badbuild' in s:
             problems.add('the table is rebuilt at a temperature other than the current one')
+        if 'build' in s and 'within' in s:
+            problems.add('the table is rebuilt on the branch where the accumulated change is within the limit (and kept where it exceeds it)')
+        if 'exceeds' in s and 'build' not in s:
+            problems.add('the accumulated change exceeds the limit on a path that does not rebuild the table')
         if 'badreset' in s:
             problems.add('the accumulator is overwritten with something other than 0')
     if not any('build' in s for s in states):
